@@ -14,10 +14,14 @@ type State struct {
 	heaps  map[string]*Term // heap name -> current array term
 	next   *Term            // allocation counter (Int)
 	ghosts map[string]*Term // ghost variables (held lock set, seen sets, counters ...)
+	// epochs: a ghost / heap that has not been materialised in this state yet gets its initial constant
+	// per epoch; a havoc that may touch not-yet-materialised ghosts / heaps starts a new epoch (= fresh values)
+	gEpoch int
+	hEpoch int
 }
 
 func (s *State) clone() *State {
-	n := &State{reach: s.reach, next: s.next, heaps: make(map[string]*Term, len(s.heaps)), ghosts: make(map[string]*Term, len(s.ghosts))}
+	n := &State{reach: s.reach, next: s.next, gEpoch: s.gEpoch, hEpoch: s.hEpoch, heaps: make(map[string]*Term, len(s.heaps)), ghosts: make(map[string]*Term, len(s.ghosts))}
 	for k, v := range s.heaps {
 		n.heaps[k] = v
 	}
@@ -67,6 +71,7 @@ type FnCtx struct {
 	unrollTop  bool
 	usesPtrTag bool
 	next0      *Term
+	epochs     int
 	hvBound    *Term // allocation bound valid for values appearing through the havoc in progress
 }
 
@@ -84,6 +89,9 @@ func (fc *FnCtx) ghost(st *State, name string, sort Sort) *Term {
 	if g, ok := st.ghosts[name]; ok {
 		return g
 	}
+	if st.gEpoch > 0 {
+		return fc.ghostInit(fmt.Sprintf("%s@%d", name, st.gEpoch), sort)
+	}
 	return fc.ghostInit(name, sort)
 }
 
@@ -99,13 +107,21 @@ func (fc *FnCtx) heap(st *State, name string, sort Sort) *Term {
 	if t, ok := st.heaps[name]; ok {
 		return t
 	}
-	if t, ok := fc.initHeaps[name]; ok {
+	key := name
+	if st.hEpoch > 0 {
+		key = fmt.Sprintf("%s@%d", name, st.hEpoch)
+	}
+	if t, ok := fc.initHeaps[key]; ok {
 		return t
 	}
 	fc.heapSorts[name] = sort
 	t := fc.sc.Fresh("H0_"+name, sort)
-	fc.initHeaps[name] = t
-	fc.wfHeapFact(t, fc.next0)
+	fc.initHeaps[key] = t
+	if st.hEpoch == 0 {
+		fc.wfHeapFact(t, fc.next0)
+	} else {
+		fc.wfHeapFact(t, st.next)
+	}
 	return t
 }
 
@@ -403,6 +419,21 @@ func (fc *FnCtx) merge(states []*State, conds []*Term) *State {
 		return s
 	}
 	out := &State{heaps: map[string]*Term{}, ghosts: map[string]*Term{}}
+	out.gEpoch, out.hEpoch = states[0].gEpoch, states[0].hEpoch
+	for _, s := range states[1:] {
+		if s.gEpoch != out.gEpoch {
+			fc.epochs++
+			out.gEpoch = fc.epochs
+			break
+		}
+	}
+	for _, s := range states[1:] {
+		if s.hEpoch != out.hEpoch {
+			fc.epochs++
+			out.hEpoch = fc.epochs
+			break
+		}
+	}
 	out.reach = fc.sc.Define("reach", Or(conds...))
 	names := map[string]bool{}
 	for _, s := range states {
@@ -445,12 +476,17 @@ func (fc *FnCtx) merge(states []*State, conds []*Term) *State {
 		for i := len(states) - 1; i >= 0; i-- {
 			g, has := states[i].ghosts[k]
 			if !has {
-				if ig, known := fc.initGhosts[k]; known {
-					g = ig
-				} else {
+				if strings.HasPrefix(k, "seen:") || strings.HasPrefix(k, "seencnt:") {
 					ok = false
 					break
 				}
+				var srt Sort
+				for _, s2 := range states {
+					if g2, h2 := s2.ghosts[k]; h2 {
+						srt = g2.Sort
+					}
+				}
+				g = fc.ghost(states[i], k, srt)
 			}
 			if cur == nil {
 				cur = g
